@@ -10,7 +10,7 @@ def cfg_for(rnd):
     rules = []
     for i, mmt in enumerate(rnd.sample([b"counter", b"gauge", b"observer", None], rnd.randint(2, 4))):
         rules.append(GM.rule(rnd.choice([b"foo", b"foo.*", b"*", b"*.*"]), rnd.choice([b"foo", b"foo_$1", b"m%d" % i]), mmt=mmt, help=b"r%d" % i,
-                             labels=[(rnd.choice([b"ca", b"gb", b"env", b"k_1"]), rnd.choice([b"rule%d" % i, b"$1", b"${1}x"]))] if rnd.random() < 0.8 else [],
+                             labels=[(rnd.choice([b"ca", b"gb", b"env", b"k_1", b"shard_", b"bc"]), rnd.choice([b"rule%d" % i, b"$1", b"${1}x"]))] if rnd.random() < 0.8 else [],
                              honor=rnd.random() < 0.4, ttl=rnd.choice([0, 0, 2 * 10**9])))
     return (GM.defaults(observer_type=rnd.choice([None, b"histogram"])), rules)
 
@@ -20,7 +20,11 @@ def gen_case(rnd):
     lines = []
     for _ in range(rnd.randint(2, 10)):
         nm = rnd.choice([b"foo", b"foo.a", b"bar", b"foo.b"])
-        tags = rnd.choice([b"", b"", b"|#env:tag", b"|#a.b:1,a-b:2", b"|#k_1:t,ca:t", b"|#gb:z"])
+        tags = rnd.choice([b"", b"", b"|#env:tag", b"|#a.b:1,a-b:2", b"|#k_1:t,ca:t", b"|#gb:z",
+                           # keys that need escaping beyond ASCII (a non-ASCII digit, letters whose low byte is a delimiter), a key that clashes with
+                           # a rule label only after escaping, and two label sets whose names / values concatenate to the same bytes
+                           b"|#shard\xd9\xa3:tag", b"|#shard_:t,shard\xd9\xa3:u", "|#\u0440\u0435\u0433\u0438\u043e\u043d:eu,\u043a\u043b\u0430\u0441\u0442\u0435\u0440:a1".encode(),
+                           b"|#a:a,bc:bc", b"|#ab:a,c:bc", b"|#a:ab,bc:c", b"|#" + b"K" * 70 + b":v"])
         r = rnd.random()
         if r < 0.5 and not tags:
             samples = [rnd.choice([b"1|c", b"2|g", b"+3|g", b"4|ms", b"5|h", b"6|c|@0.5", b"7|ms|@0.5"]) for _ in range(rnd.randint(2, 4))]
